@@ -201,6 +201,10 @@ def execute(cfg, env, horizon=12):
     def thunk():
         nonlocal the_request
         if rk == 'single':
+            if via == 'dunder':
+                return client('m', 1, _trace_ctx=ctx)
+            if via == 'proxy':
+                return client.proxy.m(1, _trace_ctx=ctx)
             if via == 'call':
                 return client.call('m', 1, _trace_ctx=ctx)
             the_request = Request('m', [1], id=1)
@@ -212,6 +216,10 @@ def execute(cfg, env, horizon=12):
             return client.send(the_request, _trace_ctx=ctx, **send_kw)
         b = client.batch
         if rk == 'batch':
+            if via == 'proxy':
+                return b.proxy.a(1).b(2).call(_trace_ctx=ctx)
+            if via == 'dunder':
+                return b('a', 1)('b', 2).call(_trace_ctx=ctx)
             if via == 'call':
                 return b.add('a', 1).add('b', 2).call(_trace_ctx=ctx)
             the_request = BatchRequest(Request('a', [1], id=1), Request('b', [2], id=2))
